@@ -200,7 +200,7 @@ Proof. intros Hn t H1 H2. unfold vector_from_vertex. replace (Nat.eqb npts 2) wi
   try (specialize (H2 ltac:(lra))); try lra; intuition lra. Qed.
 
 (* ================================================================== the mean-one row *)
-Open Scope Q_scope.
+Local Open Scope Q_scope.
 Lemma qdot_cons a x b y : qdot (a :: x) (b :: y) = a * b + qdot x y. Proof. reflexivity. Qed.
 Theorem mean_row_is_sum (x : list Q) (lam : Q) :
   qdot (repeat 1 (length x) ++ [0]) (x ++ [lam]) == fold_right Qplus 0 x.
@@ -213,4 +213,4 @@ Theorem add_mean_one_shape (m : list (list Q)) (b : list Q) (n : nat) :
   fst (add_mean_one m b n) = map (fun r => r ++ [1]) m ++ [repeat 1 n ++ [0]] /\
   snd (add_mean_one m b n) = b ++ [inject_Z (Z.of_nat n)].
 Proof. split; reflexivity. Qed.
-Close Scope Q_scope.
+Local Close Scope Q_scope.
